@@ -818,6 +818,97 @@ pub fn stress_c16(ctx: &crate::props::Ctx, i: u64, threads: usize, iters: usize)
             }
         }
     }
+    // Concurrent loads: every thread loads, through a reader that yields the processor between small
+    // reads, one of three images -- the base, a sibling that differs only in a header field the
+    // library does not interpret, and an unrelated sprite -- while the other threads do the same.
+    // Each result must equal what the same bytes give when loaded alone: loading the same bytes
+    // twice gives equal observations, whatever else the process is loading at the time.
+    {
+        struct YieldReader<'a> {
+            data: &'a [u8],
+            pos: usize,
+            step: usize,
+        }
+        impl<'a> std::io::Read for YieldReader<'a> {
+            fn read(&mut self, buf: &mut [u8]) -> std::io::Result<usize> {
+                std::thread::yield_now();
+                let n = buf.len().min(self.step).min(self.data.len() - self.pos);
+                buf[..n].copy_from_slice(&self.data[self.pos..self.pos + n]);
+                self.pos += n;
+                Ok(n)
+            }
+        }
+        fn outcome(r: Result<asefile::AsepriteFile, asefile::AsepriteParseError>, costs: &Costs) -> String {
+            match r {
+                Err(e) => format!("err:{}", crate::exec::err_class(&e)),
+                Ok(f) => match catch_unwind(AssertUnwindSafe(|| crate::exec::observe_digest(&f, costs))) {
+                    Ok((d, _, _)) => format!("ok:{:016x}", d),
+                    Err(_) => {
+                        let _ = crate::exec::take_panic_pub();
+                        "accessor-panic".into()
+                    }
+                },
+            }
+        }
+        let mut sib = base.bytes.clone();
+        if let Some(fl) = base.map.fields.iter().find(|f| f.chunk == "header" && f.name == "flags") {
+            sib[fl.off] ^= 0x01;
+        }
+        let other = crate::props::gen_base(ctx, &mut r, false, 20, 64 << 10);
+        let images: Vec<(Vec<u8>, Costs)> = vec![
+            (base.bytes.clone(), costs.clone()),
+            (sib.clone(), costs_for(&crate::format::walk(&sib), COST_CAP)),
+            (other.bytes.clone(), costs_for(&other.map, COST_CAP)),
+        ];
+        let alone: Vec<Option<String>> = images
+            .iter()
+            .map(|(im, c)| catch_unwind(AssertUnwindSafe(|| outcome(asefile::AsepriteFile::read(&im[..]), c))).ok())
+            .collect();
+        let hit: Mutex<Option<String>> = Mutex::new(None);
+        let gate = std::sync::Barrier::new(threads);
+        let rounds = (iters / 40).clamp(1, 6);
+        std::thread::scope(|s| {
+            for k in 0..threads {
+                let (images, alone, hit, gate, descr) = (&images, &alone, &hit, &gate, &base.desc);
+                s.spawn(move || {
+                    gate.wait();
+                    for it in 0..rounds {
+                        let idx = (k + it) % images.len();
+                        let Some(want) = &alone[idx] else { continue };
+                        let (im, c) = &images[idx];
+                        let step = [1usize, 3, 16, 64][(k + 2 * it) % 4];
+                        let got = catch_unwind(AssertUnwindSafe(|| outcome(asefile::AsepriteFile::read(YieldReader { data: im, pos: 0, step }), c)));
+                        let got = match got {
+                            Ok(g) => g,
+                            Err(_) => {
+                                let _ = crate::exec::take_panic_pub();
+                                "load-panic".into()
+                            }
+                        };
+                        if &got != want {
+                            let mut g = hit.lock().unwrap();
+                            if g.is_none() {
+                                *g = Some(format!(
+                                    "run {} concurrent loads, thread {} image {} ({}): loaded alone {} ; loaded while other threads load {} ; base {}",
+                                    i,
+                                    k,
+                                    idx,
+                                    ["base", "sibling differing in the header flags only", "unrelated sprite"][idx],
+                                    want,
+                                    got,
+                                    descr
+                                ));
+                            }
+                            return;
+                        }
+                    }
+                });
+            }
+        });
+        if let Some(m) = hit.into_inner().unwrap() {
+            return Some(m);
+        }
+    }
     let bad: Mutex<Option<String>> = Mutex::new(None);
     let stop = std::sync::atomic::AtomicBool::new(false);
     let gate = std::sync::Barrier::new(threads);
